@@ -63,8 +63,11 @@ for n in ("Unary", "Binary", "Not"):
 """)
 
 def visit(vtype, n, extra=""):
+    # the normalising visitor runs inside every read: its frame (it writes nothing but its own err field and fresh
+    # memory) is also what C09 / C07 need - a read leaves the caller's query and operand lists untouched
+    tags = "C01 C02 C07 C09 C20" if vtype == "CriteriaNormalizeVisitor" else "C01 C02 C20"
     return f"""//@ func (*{vtype}).Visit{n}Criteria
-//@   tags (C01 C02 C20)
+//@   tags ({tags})
 //@   implements query.CriteriaVisitor.Visit{n}Criteria
 {extra}"""
 
